@@ -50,6 +50,7 @@ def reset_class_state(ns):
     """Make runs independent: empty buffers/locks left over by an earlier program."""
     import proto
     proto.FAILING.clear()
+    del proto.KEPT_ITERATORS[:]
     for fam in ns.families:
         for cls in fam.classes:
             if hasattr(cls, "_locks"):
